@@ -567,9 +567,15 @@ def r4_result(ctx, chk, rule="C07.4", order_matters=True):
             chk.violation(rule, f.where(compr), "the result is built from `%s`, not from the visited collection `%s`" % (src(gen.iter), s.visited_name),
                           expected="[x for x in %s if x not in %s]" % (s.visited_name, s.finals), found=src(compr), construct="reverse_dfs result source")
             return
-        ok_filter = len(gen.ifs) == 1 and isinstance(gen.ifs[0], ast.Compare) and len(gen.ifs[0].ops) == 1 \
-            and isinstance(gen.ifs[0].ops[0], ast.NotIn) and src(gen.ifs[0].left) == x \
-            and isinstance(gen.ifs[0].comparators[0], ast.Name) and gen.ifs[0].comparators[0].id == s.finals
+        shape = len(gen.ifs) == 1 and isinstance(gen.ifs[0], ast.Compare) and len(gen.ifs[0].ops) == 1 \
+            and isinstance(gen.ifs[0].ops[0], ast.NotIn) and src(gen.ifs[0].left) == x
+        cont = gen.ifs[0].comparators[0] if shape else None
+        # the final states, or a set / tuple made of them once (membership is the same question)
+        ok_filter = shape and ((isinstance(cont, ast.Name) and cont.id == s.finals) or _is_set_of(cont, s.finals, cfg, ret)
+                               or (isinstance(cont, ast.Call) and call_name(cont) in ("list", "tuple") and len(cont.args) == 1 and isinstance(cont.args[0], ast.Name) and cont.args[0].id == s.finals))
+        if shape and not ok_filter and not (isinstance(cont, ast.Name) and cont.id in (s.visited_name,)) and not isinstance(cont, (ast.List, ast.Tuple, ast.Set, ast.Constant)):
+            chk.undecided(rule, f.where(compr), "the result filter is `%s`: `%s` is not recognised as the final states" % (src(gen.ifs[0]), src(cont)))
+            return
         if not gen.ifs:
             chk.violation(rule, f.where(compr), "final states are not filtered out of the result", expected="if x not in %s" % s.finals,
                           found=src(compr), construct="reverse_dfs result filter missing")
